@@ -122,7 +122,7 @@ def tasks(tier, seed):
 
 def replay(o):
     w = o["witness"]
-    if w["kind"].startswith("c07.join"):
+    if w["kind"].startswith("c07.join") or w["kind"] == "c07.concrete":
         from . import c07join
         return c07join.replay(o)
     shape, pt, U, ks = concrete_inputs(w)
